@@ -3,7 +3,7 @@
 From Coq Require Import List String ZArith.
 From Helm Require Import Values.Tree Values.Merge Values.Coalesce Values.Options
                          Values.MergeProofs Values.CoalesceProofs Values.SubchartProofs Values.DepthProofs Values.GlobalProofs
-                         Values.Strvals Values.StrvalsProofs Gen.ValueOrder.
+                         Values.Strvals Values.StrvalsProofs Values.GrammarProofs Gen.ValueOrder.
 Import ListNotations.
 Local Open Scope string_scope.
 
@@ -248,3 +248,59 @@ Example C04_set_error_frame_nonvacuous :
   /\ heads 17 (mkCfg MTyped [] []) [("c", VStr "old"); ("z", VBool true)] "a.b=1,c[x]=2,d=3" = ["a"; "c"].
 Proof. exact ex_error_frame. Qed.
 Print Assumptions C04_set_error_frame_nonvacuous.
+
+(* The --set grammar with list indexes, brace lists and several pairs.  An expression is a
+   non-empty list of pairs; a pair is a path of segments (a non-empty key of arbitrary bytes,
+   optionally one index written with any digit text that Atoi reads as i) and a value (a scalar
+   text or a brace list {first,more...}); [show_expr] prints it with the documented escaping
+   and ',' between the pairs; each path has at most 30 dots.  [den_expr] is what the
+   expression means: the pairs applied one after the other, each setting its path to its
+   typed value, creating tables on the way, creating lists and padding them with nil up to
+   the index (den_key: None when a key would go below a non-table, an index onto a non-list,
+   or an index is negative or above 65536).  Whenever that meaning exists, --set / --set-string
+   return exactly it, and every path that is unrelated to (neither above nor below) the table
+   keys of every pair is as it was: the frame of the sequential composition. *)
+Theorem C04_set_frame_grammar : forall (st : bool) (ps : list pair) (dest d' : vmap),
+  ps <> [] -> Forall pair_ok ps -> den_expr st ps dest = Some d' ->
+  (if st then parse_into_string else parse_into) (show_expr ps) dest = POk d'
+  /\ (forall q, forallb (fun p => negb (related_b (key_prefix (fst p)) q)) ps = true ->
+                lookup_path q (VMap d') = lookup_path q (VMap dest)).
+Proof. exact set_frame_grammar. Qed.
+Print Assumptions C04_set_frame_grammar.
+
+(* one pair: following its keys and indexes in the result reaches the value it was given, and
+   nothing unrelated to its table keys changed *)
+Theorem C04_set_names_its_path : forall (segs : list seg) (x : val) (d d' : vmap),
+  den_key segs x d = Some d' ->
+  walk segs (VMap d') = Some x
+  /\ (forall q, related_b (key_prefix segs) q = false -> lookup_path q (VMap d') = lookup_path q (VMap d)).
+Proof. exact pair_sets_its_path. Qed.
+Print Assumptions C04_set_names_its_path.
+
+(* setIndex: fails exactly for a negative index or one above MaxIndex = 65536; otherwise the
+   element is set, the other elements are kept and the gap up to the index is nil *)
+Theorem C04_set_index_spec : forall (l : list val) (i : Z) (v : val),
+  (set_index l i v = None <-> (i < 0 \/ max_index < i)%Z)
+  /\ (forall l', set_index l i v = Some l' ->
+        in_range l' i = true /\ nth_val i l' = v
+        /\ (forall j, j <> Z.to_nat i -> j < List.length l -> nth j l' VNull = nth j l VNull)
+        /\ (forall j, List.length l <= j -> j < Z.to_nat i -> nth j l' VNull = VNull)).
+Proof. exact set_index_spec. Qed.
+Print Assumptions C04_set_index_spec.
+
+Example C04_set_frame_grammar_nonvacuous :
+  show_expr ex_ps = "srv[2].host=h,tags={a,true,7},a.x\.y=null,srv[0].port=80"
+  /\ Forall pair_ok ex_ps
+  /\ den_expr false ex_ps [("keep", VBool true)]
+     = Some [("keep", VBool true);
+             ("srv", VList [VMap [("port", VNum 80%Z)]; VNull; VMap [("host", VStr "h")]]);
+             ("tags", VList [VStr "a"; VBool true; VNum 7%Z]);
+             ("a", VMap [("x.y", VNull)])]
+  /\ parse_into (show_expr ex_ps) [("keep", VBool true)]
+     = POk [("keep", VBool true);
+            ("srv", VList [VMap [("port", VNum 80%Z)]; VNull; VMap [("host", VStr "h")]]);
+            ("tags", VList [VStr "a"; VBool true; VNum 7%Z]);
+            ("a", VMap [("x.y", VNull)])]
+  /\ den_key [("l", Some ("65537", 65537%Z))] (VStr "x") [] = None.
+Proof. exact ex_grammar. Qed.
+Print Assumptions C04_set_frame_grammar_nonvacuous.
